@@ -215,7 +215,7 @@ func compareDebianNonDigits(a, b string) int {
 }
 
 // getDebianCharWeight returns the sort weight for a character per Debian rules
-// Tilde (~) sorts earliest, then null, then letters/other chars
+// Tilde (~) sorts earliest, then null, then letters, then all other characters
 func getDebianCharWeight(r rune) int {
 	switch r {
 	case '~':
@@ -223,7 +223,10 @@ func getDebianCharWeight(r rune) int {
 	case 0:
 		return 0 // Null/missing character
 	default:
-		return int(r) // Use Unicode value for other characters
+		if unicode.IsLetter(r) {
+			return int(r) // Letters sort by their character value
+		}
+		return int(r) + 256 // Everything else sorts after all letters (1.0a < 1.0+)
 	}
 }
 
